@@ -223,6 +223,8 @@ P_C15(c) ==
          /\ ~HasLinkEl(dom) => SameResult(a, b)
     \* raw_mode(false) after no_table_borders(): no option at all, and the borders stay off
     [] opt = "rawoff" -> SameResult(a, b) /\ (b.res.k = "ok" => ~HasBox(b.res))
+    \* the same builder calls in a different order
+    [] opt = "perm" -> SameResult(a, b)
     [] opt = "nolinkwrap" -> (~HasLinkEl(dom) \/ ~CfgOf(a.cfg).footnotes) => SameResult(a, b)
     [] opt = "min_wrap" -> ~HasNestedBlock(dom) => SameResult(a, b)
     [] OTHER -> FALSE
